@@ -173,18 +173,24 @@ def enumerate_cases(tier, seed, classes="discretizers"):
         kmax = {"quick": 3, "thorough": 4}[tier]
         for kind in ("QNT", "ORD", "CAT", "NUMCAT"):
             a = list(alpha) + ([(0, 0)] if kind == "ORD" else [])
-            tabs, tr = space.construct(a, 1, kmax, ordered=(kind not in ("CAT",)))
+            if tier == "quick":
+                tabs, tr = space.construct(a, 1, kmax, ordered=(kind not in ("CAT",)))
+            else:  # full alphabet up to k=3, quick alphabet for k=4
+                tabs, tr = space.construct(a, 1, 3, ordered=(kind not in ("CAT",)))
+                aq = list(SIGMA_D["quick"]) + ([(0, 0)] if kind == "ORD" else [])
+                t4, tr4 = space.construct(aq, 4, 4, ordered=(kind not in ("CAT",)))
+                tabs, tr = tabs + t4, tr + tr4
             tabs = [()] + tabs
             transitions += tr
             for cells in tabs:
-                for nan in NAN_CELLS[tier]:
+                for nan in NAN_CELLS[tier] if len(cells) <= 3 else NAN_CELLS["quick"]:
                     if not cells and nan is None:
                         continue
                     if sum(c[0] + c[1] for c in cells) + (sum(nan) if nan else 0) < 2:
                         continue
                     for cls in CLASSES_BY_KIND[kind]:
-                        for mf in MIN_FREQS[tier]:
-                            for target in ("binary",) if tier == "quick" else ("binary", "continuous"):
+                        for mf in MIN_FREQS[tier] if len(cells) <= 3 else [0.34, 0.3, 0.1]:
+                            for target in ("binary",) if (tier == "quick" or cls != "Discretizer" or mf not in (0.25, 0.1) or len(cells) > 3) else ("binary", "continuous"):
                                 if not valid_target(cells, nan, target):
                                     continue
                                 cases.append({"cls": cls, "kind": kind, "cells": [list(c) for c in cells], "nan": list(nan) if nan else None, "min_freq": mf, "target": target, "seed": seed, "companion": None})
@@ -213,17 +219,23 @@ def enumerate_cases(tier, seed, classes="discretizers"):
         nans = {"quick": [None, (0, 2)], "thorough": [None, (0, 2), (2, 1)]}[tier]
         for kind in ("QNT", "ORD", "CAT"):
             a = list(alpha) + ([(0, 0)] if kind == "ORD" else [])
-            tabs, tr = space.construct(a, 1, kmax, ordered=(kind != "CAT"))
+            if tier == "quick":
+                tabs, tr = space.construct(a, 1, kmax, ordered=(kind != "CAT"))
+            else:
+                tabs, tr = space.construct(a, 1, 3, ordered=(kind != "CAT"))
+                aq = list(SIGMA_D["quick"]) + ([(0, 0)] if kind == "ORD" else [])
+                t4, tr4 = space.construct(aq, 4, 4, ordered=(kind != "CAT"))
+                tabs, tr = tabs + t4, tr + tr4
             transitions += tr
             for cells in tabs:
-                for nan in nans:
+                for nan in nans if len(cells) <= 3 else nans[:2]:
                     if sum(c[0] + c[1] for c in cells) + (sum(nan) if nan else 0) < 2:
                         continue
                     for cls in CARVERS:
                         target = target_for(cls)
                         if not valid_target(cells, nan, target):
                             continue
-                        for mf in mfs:
+                        for mf in mfs if len(cells) <= 3 else [0.34, 0.1]:
                             cases.append({"cls": cls, "kind": kind, "cells": [list(c) for c in cells], "nan": list(nan) if nan else None, "min_freq": mf, "target": target, "seed": seed, "companion": None})
             # companions with carvers
             tabs2, _ = space.construct(list(alpha), 2, 2, ordered=(kind != "CAT"))
